@@ -1,11 +1,13 @@
 pub mod backend;
 pub mod c04;
+pub mod c09;
 pub mod driver;
 pub mod genr;
+pub mod mmops;
 pub mod mv;
 pub mod tableops;
 pub mod tape;
 
 pub fn all_checks() -> Vec<Box<dyn driver::Check>> {
-    vec![Box::new(c04::C04)]
+    vec![Box::new(c04::C04), Box::new(c09::C09)]
 }
